@@ -4,6 +4,7 @@ import (
 	"fmt"
 	"os"
 	"reflect"
+	"runtime"
 	"strconv"
 	"strings"
 	"sync"
@@ -17,7 +18,11 @@ import (
 // alone on fresh objects ("every concurrent call returns what the same call
 // returns when run alone"), no deadlock, no panic.
 type Scenario struct {
-	Name    string
+	Name string
+	// Cost is a declared weight of one execution relative to a cheap (microsecond) one; the
+	// projected cost of the next preemption bound is multiplied by it (0 means 1). It makes the
+	// completed bound deterministic (not wall-clock dependent) while keeping slow primitives affordable.
+	Cost    int
 	Setup   func() interface{}
 	Threads []func(shared interface{}) interface{}
 }
@@ -133,7 +138,11 @@ func ExploreScenario(r *verifmc.Run, sc Scenario, bound int) Stats {
 	for b := 0; b <= bound; b++ {
 		if b >= 1 {
 			// executions grow roughly by a factor (#points) per extra preemption; each costs #points steps
-			proj := st.Executions * (st.MaxPoints + 1) / b * (st.MaxPoints + 1)
+			cost := sc.Cost
+			if cost < 1 {
+				cost = 1
+			}
+			proj := st.Executions * (st.MaxPoints + 1) / b * (st.MaxPoints + 1 + 50*cost)
 			if proj > budget {
 				r.Cap(fmt.Sprintf("%s: preemption bound %d not attempted (projected %d scheduling steps > budget %d)", sc.Name, b, proj, budget))
 				break
@@ -208,6 +217,9 @@ func ReplayScenario(r *verifmc.Run, sc Scenario, caseID string) {
 
 // RunScenarios is the body of a TestVerifC11_sched_* unit.
 func RunScenarios(r *verifmc.Run, scs []Scenario, bound int) {
+	// one P: every hand-off is a direct goroutine switch (no OS-thread wake-up), which is much
+	// faster and independent of machine load; parallelism comes from packages running as processes.
+	defer runtime.GOMAXPROCS(runtime.GOMAXPROCS(1))
 	for _, sc := range scs {
 		if r.Replaying() {
 			ReplayScenario(r, sc, r.ReplayCase())
